@@ -311,6 +311,52 @@ func kissFamily(thorough bool) [][][]ref.P {
 	return out
 }
 
+// teethFamily: a narrow body whose east side is a stack of t thin teeth between two pixels A (west) and B (east, 16 pixels
+// away), an arm lying on top of the teeth, and 0-2 thin cracks cutting in from the west between arm and teeth: the
+// boundary runs A->B and B->A many times (zig-zag), leaves through other pixels (around the arm) and comes back to run
+// A->B again along each crack.  These are the repetition patterns kmpDeduplicate's case analysis has to tell apart,
+// produced by valid polygons.  1/100 pixel units; every start vertex; cracks in the pixel row of the teeth or one above.
+func teethFamily(thorough bool) [][][]ref.P {
+	var out [][][]ref.P
+	for t := 1; t <= 4; t++ {
+		for cracks := 0; cracks <= 2; cracks++ {
+			for _, rowUp := range []int64{0, 100} {
+				if cracks == 0 && rowUp > 0 {
+					continue
+				}
+				ring := []ref.P{{240, 240}, {460, 240}}
+				for i := 0; i < 2*t; i++ {
+					x := int64(480)
+					if i%2 == 1 {
+						x = 2020
+					}
+					ring = append(ring, ref.P{x, 1208 + 8*int64(i)})
+				}
+				top := 1340 + rowUp
+				ring = append(ring, ref.P{2040, top}, ref.P{440, top})
+				switch cracks {
+				case 1:
+					ring = append(ring, ref.P{440, 1290 + rowUp}, ref.P{2010, 1275 + rowUp})
+				case 2:
+					ring = append(ring, ref.P{440, 1325 + rowUp}, ref.P{2010, 1318 + rowUp}, ref.P{440, 1308 + rowUp}, ref.P{2010, 1275 + rowUp})
+				}
+				ring = append(ring, ref.P{420, 1262}, ref.P{240, 1262})
+				if !ref.Simple(ring) || ref.Area2(ring) <= 0 {
+					continue
+				}
+				rots := allRot(len(ring))
+				if !thorough {
+					rots = []int{0, 1, 2, 3, len(ring) / 2, len(ring) - 3, len(ring) - 2, len(ring) - 1}
+				}
+				for _, r := range rotations(ring, rots) {
+					out = append(out, [][]ref.P{r})
+				}
+			}
+		}
+	}
+	return out
+}
+
 func familyScopes(thorough bool) []Scope {
 	return append(handMadeFamilyScopes(thorough), cellScopes(thorough)...)
 }
@@ -327,6 +373,7 @@ func handMadeFamilyScopes(thorough bool) []Scope {
 		{Name: "F-moat2", GS: GridSpec{Kind: "synth", Deepest: 1, Px: 1, Sub: 4, OffPx: [2]int64{1, 1}, TileWidth: 1}, Spec: lat.Spec{Explicit: moat2Family(thorough), Valid: true}, IDSets: [][]int{{1}}, Cfgs: keepCfgs},
 		{Name: "F-nested", GS: GridSpec{Kind: "synth", Deepest: 1, Px: 1, Sub: 4, OffPx: [2]int64{2, 3}, TileWidth: 1}, Spec: lat.Spec{Explicit: nestedFamily(thorough), Valid: true}, IDSets: [][]int{{1}}, Cfgs: keepCfgs},
 		{Name: "F-kiss", GS: synthGS(0, 4, [2]int64{0, 1}), Spec: lat.Spec{Explicit: kissFamily(thorough), Valid: true}, IDSets: one, Cfgs: keepCfgs},
+		{Name: "F-teeth", GS: GridSpec{Kind: "synth", Deepest: 1, Px: 1, Sub: 100, OffPx: [2]int64{1, 1}, TileWidth: 1}, Spec: lat.Spec{Explicit: teethFamily(thorough), Valid: true}, IDSets: [][]int{{1}}, Cfgs: keepCfgs},
 		{Name: "F-snake", GS: synthGS(0, 8, [2]int64{0, 2}), Spec: lat.Spec{Explicit: snakeFamily(thorough), Valid: true}, IDSets: one, Cfgs: keepCfgs},
 	}
 }
